@@ -124,6 +124,77 @@ def case_ref(case):
     return {"v": v[:6], "nt": n, "n": n, "obs": worst}
 
 
+ROUTES = ("parse-dict", "dataclasses", "dataclasses-xy-written-out", "replace-origin", "replace-tower-height", "after-rejected-replace", "after-rejected-parse", "after-rejected-construction")
+
+
+def case_routes(case):
+    """every way a caller arrives at a configuration whose towers are located by latitude / longitude relative to a
+    reference origin - including sessions in which another construction was REJECTED in between - leaves every tower
+    (the configuration's and the caller's own handle) at the local coordinates of its lat/lon: the round trip through
+    xy_to_latlon returns the tower's own lat/lon, and x, y equal the harness' equirectangular placement."""
+    import dataclasses
+
+    from bldfm.config_parser import BLDFMConfig, DomainConfig, MetConfig, TowerConfig, parse_config_dict
+    from bldfm.plotting._geo import xy_to_latlon
+
+    rlat, rlon = case["ref"]
+    route = case["route"]
+    offs = [(120.0, -340.0), (-55.0, 410.0), (0.0, 0.0)]
+    ll = [geo.place(rlat, rlon, x, y) for x, y in offs]
+    dom = dict(nx=4, ny=4, xmax=40.0, ymax=40.0, nz=2)
+    good_met = dict(ustar=[0.3, 0.4], mol=[-50.0, -60.0])
+    bad_met = dict(ustar=[0.3, 0.4], mol=[-50.0, -60.0, -70.0])
+
+    def towers_direct(xy=False):
+        return [TowerConfig(name="t%d" % i, lat=la, lon=lo, z_m=5.0 + i, **({"x": 0.0, "y": 0.0} if xy else {})) for i, (la, lo) in enumerate(ll)]
+
+    v = []
+    handles = None
+    ref_now = (rlat, rlon)
+    if route == "parse-dict":
+        cfg = parse_config_dict({"domain": dict(dom, ref_lat=rlat, ref_lon=rlon), "towers": [{"name": "t%d" % i, "lat": la, "lon": lo, "z_m": 5.0 + i} for i, (la, lo) in enumerate(ll)], "met": good_met})
+    else:
+        handles = towers_direct(xy=(route == "dataclasses-xy-written-out"))
+        cfg = BLDFMConfig(domain=DomainConfig(ref_lat=rlat, ref_lon=rlon, **dom), towers=handles, met=MetConfig(**good_met))
+    if route == "replace-origin":
+        # the same towers under a second origin 300 m further east / 200 m further south: all local coordinates shift
+        ref_now = geo.place(rlat, rlon, 300.0, -200.0)
+        cfg = dataclasses.replace(cfg, domain=dataclasses.replace(cfg.domain, ref_lat=ref_now[0], ref_lon=ref_now[1]))
+        handles = None  # shared objects now belong to the newer configuration
+    elif route == "replace-tower-height":
+        ref_now = geo.place(rlat, rlon, 300.0, -200.0)
+        tw = [dataclasses.replace(t, z_m=t.z_m + 1.0) for t in cfg.towers]
+        cfg = BLDFMConfig(domain=dataclasses.replace(cfg.domain, ref_lat=ref_now[0], ref_lon=ref_now[1]), towers=tw, met=MetConfig(**good_met))
+        handles = tw
+    elif route.startswith("after-rejected"):
+        try:
+            if route == "after-rejected-replace":
+                dataclasses.replace(cfg, met=MetConfig(**bad_met))
+            elif route == "after-rejected-parse":
+                parse_config_dict({"domain": dict(dom, ref_lat=rlat + 1.0, ref_lon=rlon), "towers": [{"name": "zz", "lat": rlat, "lon": rlon, "z_m": 2.0}], "met": bad_met})
+            else:
+                BLDFMConfig(domain=DomainConfig(ref_lat=rlat, ref_lon=rlon, **dom), towers=cfg.towers, met=MetConfig(**bad_met))
+            rejected = False
+        except Exception:
+            rejected = True
+        if not rejected:
+            raise core.HarnessError("the malformed forcing was accepted - C16's business, but this case needs a rejection")
+    n = 0
+    for which, tl in (("configuration", cfg.towers), ("caller's own tower objects", handles)):
+        if tl is None:
+            continue
+        for i, t in enumerate(tl):
+            n += 1
+            ex, ey = offs[i][0] - (300.0 if ref_now != (rlat, rlon) else 0.0), offs[i][1] + (200.0 if ref_now != (rlat, rlon) else 0.0)
+            la, lo = xy_to_latlon(t.x, t.y, ref_now[0], ref_now[1])
+            if abs(float(la) - t.lat) > 1e-9 or abs(float(lo) - t.lon) > 1e-9 or abs(t.x - ex) > 0.5 or abs(t.y - ey) > 0.5:
+                v.append({"sub": "routes", "sig": "routes/%s/%s" % (route, "handle" if handles is tl else "config"),
+                          "msg": "route %s, reference (%g, %g): tower %s of the %s sits at local (%.3f, %.3f) m, its lat/lon place it at (%.3f, %.3f) m (round trip gives (%.7f, %.7f) for (%.7f, %.7f))"
+                          % (route, ref_now[0], ref_now[1], t.name, which, t.x, t.y, ex, ey, float(la), float(lo), t.lat, t.lon)})
+                break
+    return {"v": v[:3], "nt": True, "n": n}
+
+
 HIST_OPS = [
     {"ref": [47.3, 11.5], "pt": [700.0, -300.0]},
     {"ref": [-33.7, 151.25], "pt": [700.0, -300.0]},
@@ -174,6 +245,8 @@ def run(ctx):
     res = ctx.run_cases(case_ref, cases, sub="geolocation")
     for k in ("roundtrip_m", "dist_rel", "bearing_deg"):
         ctx.cov["worst_" + k] = max(r.get("obs", {}).get(k, 0) for r in res)
+    refs = [(47.3, 11.5), (-33.7, 151.25), (0.0, 0.0), (60.0, 179.99)] if ctx.tier == "quick" else list(itertools.product(LATS, LONS))
+    ctx.run_cases(case_routes, [{"ref": list(r), "route": rt} for r in refs for rt in ROUTES], sub="construction routes and sessions with a rejected construction")
     from vf import histories
 
     histories.run(ctx, __name__, 2 if ctx.tier == "quick" else 3)
